@@ -162,6 +162,16 @@ def run(pid, tier, seed, replay):
                 f.write(open(o).read())
         runs.insert(0, ("univwalk", "Walk", up))
         exhaustive = True
+    if pid == "C06" and not replay:
+        # what a step is given is only read: compiled actions (through core.FuncAction) executed from several goroutines on ONE
+        # bindings map that has a permanent binding, under the race detector (a write shows as a race, or ends the process)
+        idrv = vlib.build_driver("interpdrv", wd, race=True)
+        io2 = os.path.join(wd, "shared_race.ndjson")
+        pr = vlib.run([idrv, "iso", "40" if tier == "quick" else "300", str(seed + 2), io2], env=dict(os.environ, GORACE="halt_on_error=0"), timeout=3000, check=False)
+        if "WARNING: DATA RACE" in pr.stdout and "FuncAction" in pr.stdout:
+            rep.reject("a compiled action wrote to the bindings it was given (race report on one shared bindings map)", [], {"property": pid, "labels": ["given-bindings-written"], "race": pr.stdout[-3000:]})
+        elif pr.returncode != 0 and ("fatal error:" in pr.stdout or "panic:" in pr.stdout):
+            rep.reject("executions on one shared bindings map ended the process", [], {"property": pid, "labels": ["given-bindings-written"], "output": pr.stdout[-3000:]})
     crew_runs = None
     if pid == "C08" and not replay:
         # "... and as seen through a crew's reported emissions": machines whose walk for one message passes several emitting
